@@ -79,7 +79,14 @@ func (p *ScriptPeer) DoHandshake(*ecdsa.PrivateKey, *p2p.NodeID) error { return 
 func (p *ScriptPeer) Run() error                                       { <-p.closed; return io.EOF }
 func (p *ScriptPeer) NeedReConnect() bool                              { return false }
 func (p *ScriptPeer) SetStatus(s int32)                                { p.mu.Lock(); p.status = s; p.mu.Unlock() }
-func (p *ScriptPeer) Close()                                           { p.once.Do(func() { close(p.closed) }) }
+
+// Close ends the connection, from either side. Like the p2p server it then tells the protocol manager that the peer is gone.
+func (p *ScriptPeer) Close() {
+	p.once.Do(func() {
+		close(p.closed)
+		subscribe.Send(subscribe.DeletePeer, p2p.IPeer(p))
+	})
+}
 
 // Closed tells whether the node dropped the connection.
 func (p *ScriptPeer) Closed() bool {
@@ -167,12 +174,16 @@ func (nn *NetNode) Connect(p *ScriptPeer, st network.LatestStatus) error {
 	}
 	hs := &network.ProtocolHandshake{ChainID: ChainID, GenesisHash: nn.Genesis.Hash(), NodeVersion: params.VersionUint(), LatestStatus: st}
 	p.Send(p2p.ProHandshakeMsg, hs.Bytes())
-	before := nn.PM.VerifPeerCount()
 	subscribe.Send(subscribe.AddNewPeer, p2p.IPeer(p))
+	// registered and served = it answers a status request (the peer count may go down at the same time: other peers leaving)
+	buf, _ := rlp.EncodeToBytes(&network.GetLatestStatus{})
+	p.Send(p2p.GetLstStatusMsg, buf)
 	deadline := time.Now().Add(10 * time.Second)
 	for time.Now().Before(deadline) {
-		if nn.PM.VerifPeerCount() > before {
-			return nil
+		for _, m := range p.Out() {
+			if m.Code == p2p.LstStatusMsg {
+				return nil
+			}
 		}
 		time.Sleep(time.Millisecond)
 	}
